@@ -72,6 +72,10 @@ CHECKS = {
             "runtime monitor with a twin array: the same history is applied to a single-file and a split configuration; split files cut at the independently decoded recorded sizes are compared byte for byte with the single-file parity, plus alignment/size-history invariants, the parity oracle and loss-of-a-split recovery",
             "Twin histories with growth and shrinkage across split boundaries, 2..8 splits per level, unaligned per-file limits hit mid-growth, loss of a split or a disk followed by fix, and removal of unused trailing splits from the configuration. After every sync: recorded split sizes block aligned, concatenation equals the single-file parity on every used stripe, only the last used split changes size, C06 oracle holds on the split array.",
             "Limits come from the deterministic --test-parity-limit function. Stripes that hold no file block are excluded from the byte comparison (their parity is unspecified). Open finding F18 is reported as KNOWN-FINDING."),
+    "C18": ("exploration",
+            "runtime monitor with a reference model of the documented rules (independent glob matcher): direct calls of the real filter functions through a harness linked with the current objects, plus process-level sync/list and fix-under-filter runs compared with the model and with snapshots",
+            "Random rule lists (include/exclude, file and directory forms, rooted and unrooted, *, ?, [], [!], escapes) x random paths: ~10^5 (quick) direct evaluations of filter_path/filter_subdir/filter_emptydir against the model; random rule lists x trees synced and listed; fix with -f/-d/-m on damaged arrays must write exactly the selected missing files with the right bytes.",
+            "Pattern grammar restricted to forms whose meaning is unambiguous in POSIX and the manual. Empty directories produced by filtering are not judged. Open finding F20 (directory pruning vs 'first match decides') is reported as KNOWN-FINDING."),
     "C20": ("exploration",
             "runtime monitor: every derived view (list tags and stdout, dup, status, pool tree) compared with the independently decoded content file and the harness's byte-level model; escaping inverted; per-tag line counts as a forged-line detector",
             "Arrays with hostile and tag-lookalike names, duplicate groups across disks, zero sub-second stamps, pre-existing pool contents, with and without a share prefix. list/dup/status log tags and stdout are parsed back (esc_tag / shell escaping inverted) and must give exactly the recorded names, sizes, links; dup pairs must induce the content-equality partition; the pool dir must hold exactly one resolving link per recorded name with stale links and empty dirs gone and foreign files kept.",
